@@ -142,6 +142,9 @@ func c28Judge(r *kit.Run, class, s string) {
 		r.Count("oracle_either", 1)
 	}
 	r.Count("class_"+class, 1)
+	if verdict != c28MustAccept {
+		r.Distinct("in", s) // every hostile / non-canonical string is a case of its own
+	}
 }
 
 func c28RandAddr(rng *rand.Rand) codec.Address {
@@ -166,7 +169,7 @@ func c28RandAddr(rng *rand.Rand) codec.Address {
 
 func TestC28(t *testing.T) {
 	r := kit.Start(t, "C28", "exploration")
-	r.Rule("round trip: random and boundary addresses through String/MarshalText/json.Marshal and back (StringToAddress, UnmarshalText, json.Unmarshal). Hostile strings derived from a valid encoding: payloads of every length 0..80 != 33 carrying a VALID checksum (truncated, extended, zero-padded, prefix of a real address), one flipped nibble at every position, dropped/duplicated characters (odd length), a non-hex character at any position, whitespace, doubled prefix, missing checksum, empty input; non-canonical spellings (no prefix, 0X, upper/mixed case) may be accepted or rejected but never yield another address. Oracle: accept iff the text is 0x + lower-case hex of 33 bytes followed by the last 4 bytes of their sha256. Distinct = distinct (class, payload length or mutation position, address shape).")
+	r.Rule("round trip: random and boundary addresses through String/MarshalText/json.Marshal and back (StringToAddress, UnmarshalText, json.Unmarshal). Hostile strings derived from a valid encoding: payloads of every length 0..80 != 33 carrying a VALID checksum (truncated, extended, zero-padded, prefix of a real address), one flipped nibble at every position, dropped/duplicated characters (odd length), a non-hex character at any position, whitespace, doubled prefix, missing checksum, empty input; non-canonical spellings (no prefix, 0X, upper/mixed case) may be accepted or rejected but never yield another address. Oracle: accept iff the text is 0x + lower-case hex of 33 bytes followed by the last 4 bytes of their sha256. Non-trivial = hostile or non-canonical input; distinct = distinct input string (plus class x length/position buckets).")
 	r.Assume("checksum = last 4 bytes of sha256(payload) (verified against Address.String on start-up; a mismatch makes the run inconclusive, not violated)",
 		"whether the 0x prefix is optional and whether upper-case hex digits are admitted is left open by the statement: such inputs are only required not to produce a different address")
 	rng := r.Rand("cases")
@@ -350,5 +353,5 @@ func TestC28(t *testing.T) {
 		c28Judge(r, "wrong-length-valid-checksum", c28Encode(p))
 		r.Distinct("len-all", l)
 	}
-	r.Finish(r.N(300, 1000))
+	r.Finish(r.N(3000, 100000))
 }
